@@ -300,10 +300,10 @@ def c01(level):
     q = [{"h":"VpC01_Decode","x":[cheap, rng(0, 40 if big else 32)]},
          {"h":"VpC01_Decode","x":[[3,19], rng(0, 20 if big else 18)]},
          {"h":"VpC01_Decode","x":[[14], rng(0, 26 if big else 22)]},
-         {"h":"VpC01_Decode","x":[[9], rng(0, 35 if big else 30)]},
+         {"h":"VpC01_Decode","x":[[9], rng(0, 32 if big else 30)]},
          {"h":"VpC01_Decode","x":[[8], rng(0, 22)]}]
     q.append({"h":"VpC01_TWCCTyped","a":TYPED_T if big else TYPED_Q,"solver":"z3-new"})
-    q.append({"h":"VpC01_XRBlock","a":[[6,n] for n in range(8,57 if big else 53)]+[[7,n] for n in range(8,53 if big else 49)]+[[t,n] for t in (1,2,3,4) for n in range(8,29 if big else 25)]+[[5,n] for n in range(8,25 if big else 21)]+[[200,n] for n in range(8,25 if big else 21)]})
+    q.append({"h":"VpC01_XRBlock","a":[[6,n] for n in range(8,53)]+[[7,n] for n in range(8,49)]+[[t,n] for t in (1,2,3,4) for n in range(8,29 if big else 25)]+[[5,n] for n in range(8,25 if big else 21)]+[[200,n] for n in range(8,25 if big else 21)]})
     q.append({"h":"VpC01_TWCCWrap","a":[[3]],"opts":{"unwind":250000,"alloc":300000}})
     fr = framing(16 if big else 12)
     # datagrams of at most 16 octets: no loop of the decoders has more than 17 legitimate iterations
@@ -312,7 +312,7 @@ def c01(level):
 R['C01'] = {
  "quick": c01('quick'), "thorough": c01('thorough'),
  "bounds": "every buffer length 0..32 for the 17 fixed-layout decoders and sub-decoders, 0..18 for SourceDescription and SourceDescriptionChunk, 0..22 for ExtendedReport (and, with the type of the first report block fixed: 8..52 octets for statistics-summary, 8..48 for VoIP-metrics, 8..24 for the RLE and receiver-reference-time blocks, 8..20 for DLRR and unknown blocks), 0..30 for CCFeedbackReport, 0..22 for TransportLayerCC (packet status count <= 8), a 76-octet TransportLayerCC packet with status count 65535 whose chunk area repeats 3 times (8 runs of 8191 received packets, one all-ones vector) with symbolic header fields (the status-counter wrap), plus TransportLayerCC packets of up to 36 octets with typed chunks (one symbolic one-bit/two-bit vector or run-length chunk, or a vector followed by a run; status counts up to 14; the cases of C13); datagram entry points (rtcp.Unmarshal, CompoundPacket.Unmarshal): every length 0..12 under every composition into frames plus arbitrary tail; all byte contents symbolic; every loop unwound under an unwinding assertion (limit 80); allocation counted against 4 MiB + 64 bytes per input byte",
- "bounds_thorough": "as quick with lengths 0..40 (fixed-layout), 0..20 (SDES), 0..26 (XR), 0..35 (CCFB; 36 octets did not finish in 20 minutes), datagrams 0..16, and the thorough list of typed TWCC cases",
+ "bounds_thorough": "as quick with lengths 0..40 (fixed-layout), 0..20 (SDES), 0..26 (XR), 0..32 (CCFB; 34..36 octets finished in one run and not in another, so they are not registered), datagrams 0..16, and the thorough list of typed TWCC cases",
  "opts": {"unwind": 80},
  "require_reach": ["reach:end"],
  "assumptions": ["TransportLayerCC with fully symbolic bytes: packet status count <= 8; larger counts only in the typed-chunk cases and in the concrete-chunk counter-wrap case"],
